@@ -177,6 +177,19 @@ func (c *UDPConn) InjectWriteError(err error) {
 	c.mu.Unlock()
 }
 
+// InjectWriteError makes the next write of the socket bound to addr fail with err.
+func InjectWriteError(addr string, err error) {
+	k.mu.Lock()
+	c := k.socks[addr]
+	k.mu.Unlock()
+	if c != nil {
+		c.InjectWriteError(err)
+	}
+}
+
+// MaxDatagram is the largest UDP payload the simulated kernel sends (as on Linux/IPv4).
+const MaxDatagram = 65507
+
 // InjectCloseError makes Close report err (the socket is closed nevertheless).
 func (c *UDPConn) InjectCloseError(err error) {
 	c.mu.Lock()
@@ -328,6 +341,10 @@ func (c *UDPConn) WriteTo(b []byte, addr net.Addr) (int, error) {
 	ua, ok := addr.(*net.UDPAddr)
 	if !ok {
 		return 0, &net.OpError{Op: "write", Net: "udp", Err: errors.New("not a UDP address")}
+	}
+	if len(b) > MaxDatagram {
+		simrt.CountFault("datagram-too-long")
+		return 0, &net.OpError{Op: "write", Net: "udp", Addr: ua, Err: errors.New("sendto: message too long")}
 	}
 	c.send(b, ua)
 	return len(b), nil
